@@ -78,6 +78,7 @@ class Lib:
         self.libc.malloc.argtypes = [ctypes.c_size_t]
         self.libc.free.argtypes = [ctypes.c_void_p]
         self._fn = {}
+        self._flagstate = [0]
 
     @classmethod
     def get(cls, kind=None):
@@ -103,6 +104,16 @@ class Lib:
             ret, args = s.split(" ")
             f.restype = C[ret]
             f.argtypes = [C[c] for c in args]
+            if dll is None and os.environ.get("VERIF_FPFLAGS", "1") != "0":
+                # every other call of a library function is entered with all sticky floating-point exception flags raised (what a caller
+                # may have left behind: they are no argument of the call), the others with the flags clear
+                raw, raise_, clear_ = f, self.vh.vh_fpenv_raise_flags, self.vh.vh_fpenv_clear_flags
+                state = self._flagstate
+
+                def f(*a, raw=raw):
+                    state[0] ^= 1
+                    (raise_ if state[0] else clear_)()
+                    return raw(*a)
             self._fn[key] = f
         return f
 
